@@ -38,7 +38,7 @@ def check(run):
     run.regenerate()
     run.lean_props(common.modules_for("C12"))
     from .. import glue_diff
-    glue_diff.corr(run, quick, parts=("modes", "arrays"))   # operators/conversions: model vs implementation, bit for bit
+    run.attempt("corr:glue_diff.corr", glue_diff.corr, run, quick, parts=("modes", "arrays"))   # operators/conversions: model vs implementation, bit for bit
     rng = run.rng
     Qs = [helpers.random_rotor(rng) for _ in range(2)] + [(1.0, 0.0, 0.0, 0.0), (0.0, 0.6, 0.8, 0.0)]
     Lops = {2: lambda m: m.Lz(), 0: lambda m: 0.5 * (m.Lplus() + m.Lminus()), 1: lambda m: -0.5j * (m.Lplus() - m.Lminus())}
